@@ -40,6 +40,8 @@ pub struct NetRates {
     pub duplicate: u32,
     /// independent chance (permille) that a delivered response carries X-Retry-After
     pub retry_after: u32,
+    /// per-lifetime chance of an outage: every exchange is answered with one and the same error status
+    pub outage_permille: u32,
 }
 
 impl NetRates {
@@ -60,6 +62,7 @@ impl NetRates {
             byzantine_doc: 0,
             duplicate: 0,
             retry_after: 0,
+            outage_permille: 0,
         }
     }
     pub fn weights(&self) -> [u32; 14] {
@@ -212,6 +215,8 @@ pub struct ServerWeights {
     pub etag_enc: [u32; 3],
     /// the server signs at all (false = unsigned proxy always)
     pub signs: bool,
+    /// the response lists one app id twice (each entry with its own outcome)
+    pub dup_app_permille: u32,
 }
 
 impl Default for ServerWeights {
@@ -227,6 +232,7 @@ impl Default for ServerWeights {
             extra_attrs_permille: 200,
             etag_enc: [1, 1, 1],
             signs: true,
+            dup_app_permille: 0,
         }
     }
 }
@@ -299,6 +305,10 @@ pub struct Profile {
     pub dup_app_permille: u32,
     /// the neighbour task, holding the app-set lock, changes an app's cohort hint
     pub neighbour_mutates_permille: u32,
+    /// a control client makes all its requests through one handle object (no clone per request)
+    pub sticky_handle_permille: u32,
+    /// a control client abandons a request right after starting it
+    pub abandon_request_permille: u32,
 }
 
 impl Profile {
@@ -346,6 +356,8 @@ impl Profile {
             neighbour_permille: 0,
             dup_app_permille: 0,
             neighbour_mutates_permille: 0,
+            sticky_handle_permille: 0,
+            abandon_request_permille: 0,
         }
     }
 }
